@@ -411,8 +411,8 @@ pub enum Fate {
     EntErr,
     /// Produced more than the range.
     Long,
-    /// Failed only after the whole range had been delivered: an implementation that stops
-    /// polling a complete stream never sees it, so both a clean end and an error are admitted.
+    /// Failed (yielded `Err`) right after the whole range had been delivered. The stream
+    /// "fails", so the statement's first sentence applies: the body must report an error.
     LateErr,
     /// Never terminates (not generated by the explorers; nothing asserted).
     Hang,
@@ -551,7 +551,9 @@ pub fn check(req: &Req, ent: &EntSpec, obs: &ServeObs, m: &Model, out: &mut Vec<
     for (i, (_, o)) in obs.body.steps.iter().enumerate() {
         if let Obs::Panic(p) = o {
             let after = term.map(|t| i > t).unwrap_or(false);
-            let props: &[&'static str] = if after { &["C20", "C13"] } else { &["C13"] };
+            // A body that panics instead of delivering what the response announced fails every
+            // property about that delivery, not only the totality property.
+            let props: &[&'static str] = if after { &["C20", "C13"] } else { &["C13", "C01", "C02", "C06", "C07", "C12"] };
             out.push(f(
                 props,
                 format!("drain-panic:{}:{}", if after { "after-terminal" } else { "before-terminal" }, panic_class(p)),
@@ -815,7 +817,8 @@ fn check_shape(req: &Req, ent: &EntSpec, obs: &ServeObs, m: &Model, shape: &Shap
             && match fa {
                 Fate::Clean => obs.get_range.len() == calls.len(),
                 Fate::Short | Fate::EntErr => obs.get_range.len() == fault_call + 1,
-                Fate::Long | Fate::LateErr => obs.get_range.len() > fault_call,
+                Fate::LateErr => obs.get_range.len() == fault_call + 1,
+                Fate::Long => obs.get_range.len() > fault_call,
                 Fate::Hang => true,
             });
     if !calls_ok {
@@ -869,7 +872,11 @@ fn check_shape(req: &Req, ent: &EntSpec, obs: &ServeObs, m: &Model, shape: &Shap
             out.push(f(&[owner_bytes], "body-truncated", format!("entity honoured its contract but the body stopped after {delivered} bytes with {:?}", term_obs.map(|o| o.kind()))));
         }
         (_, Fate::Hang) => {}
-        (Match::Exact, Fate::LateErr) => {}
+        (Match::Exact, Fate::LateErr) => {
+            if !matches!(term_obs, Some(Obs::Err(_))) {
+                out.push(f(fault_props, "late-error-swallowed", format!("the entity stream of call {fault_call} failed right after delivering its last byte, yet the body's terminal event is {:?}", term_obs.map(|o| o.kind()))));
+            }
+        }
         (Match::Exact, Fate::Long) => {
             // Every announced byte was delivered; the surplus must not be. For 200/single-206
             // the statement requires the poll past the end to fail.
